@@ -13,7 +13,26 @@ TEMPLATES = {
     'l2': os.path.join(VERIF, 'verus', 'l2.vt'),
     'iter': os.path.join(VERIF, 'verus', 'iter.vt'),
     'memsize': os.path.join(VERIF, 'verus', 'memsize.vt'),
+    'hbcap': os.path.join(VERIF, 'verus', 'hbcap.vt'),
 }
+
+
+def hashbrown_src(repo_src):
+    """source directory of the hashbrown version pinned by /repo/Cargo.lock, in the offline cargo registry"""
+    import glob
+    lock = os.path.join(os.path.dirname(repo_src.rstrip('/')), 'Cargo.lock')
+    ver = None
+    try:
+        txt = open(lock).read()
+        mt = re.search(r'name = "hashbrown"\nversion = "([^"]+)"', txt)
+        ver = mt.group(1) if mt else None
+    except OSError:
+        pass
+    c = sorted(glob.glob(os.path.expanduser('~/.cargo/registry/src/*/hashbrown-%s/src' % (ver or '*'))))
+    if not c:
+        raise ExtractError('hashbrown source not found in the cargo registry')
+    return c[-1]
+
 
 SEMANTIC = [
     (r'postcondition not satisfied', 'postcondition'),
@@ -173,6 +192,8 @@ def run_template(name, repo_src, workdir, canary=True, rlimit=None):
     out = {'template': name, 'status': 'ok', 'reason': None}
     t0 = time.time()
     try:
+        if name == 'hbcap':
+            repo_src = hashbrown_src(repo_src)
         gen = vgen.expand(TEMPLATES[name], repo_src, canary=False)
     except ExtractError as e:
         return {'template': name, 'status': 'undecided', 'reason': 'extraction: %s' % e, 'failures': [],
